@@ -18,6 +18,24 @@
 
 #include <type_traits>
 
+#ifdef XSIMD_VERIF
+// Verification hook (off unless XSIMD_VERIF is defined): iteration counters of the data-dependent loops.
+namespace xsimd
+{
+    namespace detail
+    {
+        XSIMD_INLINE unsigned long* verif_loop_ticks() noexcept
+        {
+            static unsigned long ticks[16];
+            return ticks;
+        }
+    }
+}
+#define XSIMD_VERIF_LOOP_TICK(id) (++::xsimd::detail::verif_loop_ticks()[id])
+#else
+#define XSIMD_VERIF_LOOP_TICK(id) ((void)0)
+#endif
+
 namespace xsimd
 {
 
@@ -1282,6 +1300,7 @@ namespace xsimd
                         // x >= 1.5
                         while (any(xge150 && txgt250))
                         {
+                            XSIMD_VERIF_LOOP_TICK(1);
                             nx = select(txgt250, nx - batch_type(1.), nx);
                             tx = select(txgt250, x + nx, tx);
                             z = select(txgt250, z * tx, z);
@@ -1321,6 +1340,7 @@ namespace xsimd
                             auto orig = txlt150;
                             while (any(txlt150))
                             {
+                            XSIMD_VERIF_LOOP_TICK(2);
                                 z = select(txlt150, z * tx, z);
                                 nx = select(txlt150, nx + batch_type(1.), nx);
                                 tx = select(txlt150, x + nx, tx);
@@ -1397,6 +1417,7 @@ namespace xsimd
                         auto test1 = (u >= batch_type(3.));
                         while (any(test1))
                         {
+                            XSIMD_VERIF_LOOP_TICK(3);
                             p = select(test1, p - batch_type(1.), p);
                             u = select(test1, x + p, u);
                             z = select(test1, z * u, z);
@@ -1406,6 +1427,7 @@ namespace xsimd
                         auto test2 = (u < batch_type(2.));
                         while (any(test2))
                         {
+                            XSIMD_VERIF_LOOP_TICK(4);
                             z = select(test2, z / u, z);
                             p = select(test2, p + batch_type(1.), p);
                             u = select(test2, x + p, u);
@@ -2456,6 +2478,7 @@ namespace xsimd
                 auto test1 = (x >= B(3.));
                 while (any(test1))
                 {
+                            XSIMD_VERIF_LOOP_TICK(5);
                     x = select(test1, x - B(1.), x);
                     z = select(test1, z * x, z);
                     test1 = (x >= B(3.));
@@ -2463,6 +2486,7 @@ namespace xsimd
                 test1 = (x < B(0.));
                 while (any(test1))
                 {
+                            XSIMD_VERIF_LOOP_TICK(6);
                     z = select(test1, z / x, z);
                     x = select(test1, x + B(1.), x);
                     test1 = (x < B(0.));
@@ -2470,6 +2494,7 @@ namespace xsimd
                 auto test2 = (x < B(2.));
                 while (any(test2))
                 {
+                            XSIMD_VERIF_LOOP_TICK(7);
                     z = select(test2, z / x, z);
                     x = select(test2, x + B(1.), x);
                     test2 = (x < B(2.));
